@@ -117,6 +117,8 @@ where
                 predecessors[ix(j)] = Some(i);
 
                 if !in_queue[ix(j)] {
+                    #[cfg(feature = "verif-hooks")]
+                    crate::verif::hit(crate::verif::Site::spfa_requeue);
                     in_queue[ix(j)] = true;
                     queue.push_back(j);
                 }
